@@ -980,7 +980,7 @@ def suite_app_lists(tier, seed):
             else:
                 web.is_main_process.clear()
 
-    async def one(conf, base, later, probes):
+    async def one(conf, base, later, probes, expect_denied=False):
         from nostr_relay import web
         from nostr_relay import dynamic_lists as dl
         from nostr_relay.util import Periodic
@@ -988,10 +988,11 @@ def suite_app_lists(tier, seed):
         out = []
         await st.start()
         try:
-            for _ in range(600):                      # the builder's first run (run_at_start) is part of the start-up
-                await asyncio.sleep(0.005)
-                if dl.ALLOWED_PUBKEYS:
+            for _ in range(2000):                     # the builder's first run (run_at_start) is part of the start-up:
+                await asyncio.sleep(0.005)            # wait until it has built both lists (the deny list comes second)
+                if dl.ALLOWED_PUBKEYS and (not expect_denied or dl.DENIED_PUBKEYS):
                     break
+            await asyncio.sleep(0.02)
             await st.op(["open", 0, "1.1.1.1", None])
             for e in probes:
                 r = await st.op(["event", 0, e])
@@ -1018,7 +1019,7 @@ def suite_app_lists(tier, seed):
                     "dynamic_lists": {"check_interval": 7200, "allow_list_queries": [{"kinds": [3], "authors": [env.PUBS[admin]]}],
                                       "deny_list_queries": [{"kinds": [1984], "authors": [env.PUBS[admin]]}]}}
             probes = [env.mk_event(i, 1, env.NOW - 5, [], "probe %d %d" % (i, rng.randrange(10 ** 6))) for i in (1, 2, 3)]
-            got = env.run(one(conf, base, later, probes))
+            got = env.run(one(conf, base, later, probes, expect_denied=denied is not None))
             case = {"later_worker": later, "allowed": allowed, "denied": denied}
             s.case(case, nontrivial=True)
             want = [{"ok": (i in allowed and i != denied), "served": (i in allowed and i != denied)} for i in (1, 2, 3)]
